@@ -160,6 +160,9 @@ def replay_crosshair(mod, cond, tier, args, excludes=()):
     except BaseException as e:
         if allowed and isinstance(e, allowed):
             out.update(reproduced=False, reason="declared exception %r" % (e,)); return out
+        if isinstance(e, (NameError, ImportError, SyntaxError)):
+            # a broken harness (misspelt helper, missing import), not behaviour of the repository: exit 2, never a violation
+            out.update(reproduced=False, reason="harness error %s: %s" % (type(e).__name__, e)); return out
         if type(e).__name__ == "BoundTooSmall":
             # unwinding assertion of the whole-run driver: the bound of the harness is too small for this run -
             # machinery trouble (exit 2), never a violation of the property
